@@ -31,6 +31,7 @@ func runC02(p *load.Program, r *oblig.Report) {
 	c02MessageReader(p, r)
 	c02Reader(p, r)
 	c02LastOffsetSentinel(p, r)
+	varintAcrossRefills(p, r, "C02.R6 message set accounting and skipping")
 }
 
 func calleeName(ins ssa.Instruction) string {
